@@ -45,6 +45,10 @@ def run(ctx: core.Ctx):
             y, m, prm = smooth.make_case(rng, variant, kind=kind, min_ok=mv, small=ctx.quick and variant.endswith("r"))
             if kind == "spikes":      # noisy base with downward spikes: the robust re-weighting matters
                 y = [v + rng.randint(-30, 30) - (rng.randint(500, 3000) if rng.random() < 0.12 else 0) for v in y]
+            if k < 2 * smooth.min_valid(variant) and k // 2 < smooth.min_valid(variant):
+                # deterministic pass-through cases: exactly k//2 valid cells (0 .. min_valid-1), twice each
+                keep = set(rng.sample(range(len(y)), k // 2))
+                m = [i in keep for i in range(len(y))]
             if all(m):
                 i = rng.randrange(len(m))
                 m[i] = False
